@@ -449,17 +449,21 @@ class Gen(object):
         if k == 'def':
             self.nfun += 1
             g = 'g%d' % self.nfun
-            npar = r.choice([0, 1])
-            self.emit(ind, 'def %s(%s):' % (g, 'p' if npar else ''))
-            # inside, outer variables have whatever tags they have at the call sites: unknown to the generator,
-            # so the body only uses them in operations that never raise
-            inner = {}
+            npar = r.choice([0, 1, 1])
             rebinds = []
             if self.o.untyped and r.random() < 0.6:
-                nl = r.choice(sorted(self.defined_outer & set(VARS)))
+                rebinds = [r.choice(sorted(self.defined_outer & set(VARS)))]
+            # the parameter often SHADOWS a variable of the enclosing function (its closure type must not leak onto it)
+            pname = 'p'
+            shadow = sorted(self.defined_outer - set(rebinds))
+            if npar and shadow and r.random() < 0.6:
+                pname = r.choice(shadow)
+            self.emit(ind, 'def %s(%s):' % (g, pname if npar else ''))
+            # inside, outer variables have whatever tags they have at the call sites: unknown to the generator,
+            # so the body only uses them in operations that never raise
+            for nl in rebinds:
                 self.emit(ind + 1, 'nonlocal %s' % nl)
-                rebinds = [nl]
-            self.gen_inner(ind + 1, g, npar, rebinds)
+            self.gen_inner(ind + 1, g, npar, rebinds, pname)
             self.funs[g] = (npar, rebinds)
             env[g] = set()
             return env
@@ -584,7 +588,7 @@ class Gen(object):
             env[v] = set(t)
         return env
 
-    def gen_inner(self, ind, g, npar, rebinds):
+    def gen_inner(self, ind, g, npar, rebinds, pname='p'):
         """Body of a local function: reads captured variables only in positions that never raise
         (tuple building, tostr, ident, ==), binds its own locals u, v."""
         r = self.r
@@ -592,7 +596,7 @@ class Gen(object):
         nst = r.randint(1, 3)
         local = {}
         if npar:
-            local['p'] = {typing.Any}
+            local[pname] = {typing.Any}
 
         def safe(depth=0):
             c = r.random()
@@ -609,6 +613,28 @@ class Gen(object):
                 return '(%s == %s)' % (safe(depth + 1), safe(depth + 1))
             return 'ident(%s)' % safe(depth + 1)
 
+        if npar and r.random() < 0.5:
+            # the parameter flows into an assignment, a tuple and an unpacking
+            self.emit(ind, 'u = %s' % pname)
+            self.emit(ind, 'u, v = (%s, %s)' % (pname, safe()))
+            local['u'] = local['v'] = {typing.Any}
+        if npar and self.o.untyped and r.random() < 0.3:
+            self.emit(ind, 'if %s:' % safe())
+            self.emit(ind + 1, '%s = %s' % (pname, self.const()[0]))
+        if r.random() < 0.3:
+            # a second level of nesting whose parameter shadows a variable of g or of f
+            self.nfun2 = getattr(self, 'nfun2', 0) + 1
+            k = 'k%d' % self.nfun2
+            cands = sorted(set(local) | (self.defined_outer - set(rebinds)))
+            q = r.choice(cands) if cands and r.random() < 0.7 else 'q'
+            self.emit(ind, 'def %s(%s):' % (k, q))
+            saved = dict(local)
+            local[q] = {typing.Any}
+            self.emit(ind + 1, 'return (%s, %s)' % (q, safe()))
+            local.clear()
+            local.update(saved)
+            self.emit(ind, 'v = %s(%s)' % (k, safe()))
+            local['v'] = {typing.Any}
         for _ in range(nst):
             c = r.random()
             if c < 0.6:
@@ -622,7 +648,14 @@ class Gen(object):
             else:
                 self.emit(ind, safe())
         for nl in rebinds:
-            self.emit(ind, '%s = %s' % (nl, safe()))
+            if r.random() < 0.4:
+                # conditional re-binding of a nonlocal, read afterwards
+                self.emit(ind, 'if %s:' % safe())
+                self.emit(ind + 1, '%s = %s' % (nl, safe()))
+                self.emit(ind, 'v = %s' % nl)
+                local['v'] = {typing.Any}
+            else:
+                self.emit(ind, '%s = %s' % (nl, safe()))
         self.emit(ind, 'return %s' % safe())
 
     def function(self):
@@ -947,7 +980,7 @@ def instrument_and_run(prog, argvecs):
 # --------------------------------------------------------------------------------------------
 # the scripted, truthful resolver
 
-def make_resolver(prog, runs, decline=None, log=None):
+def make_resolver(prog, runs, decline=None, log=None, local_args_unknown=False):
     """Resolver whose answers are true of the given runs: observed tags (for arguments and call
     results) and type-level evaluation of operators/external functions over the operand tags.
     `decline(kind)` may make it answer None ('unknown') -- still truthful.  `log` collects every
@@ -988,7 +1021,7 @@ def make_resolver(prog, runs, decline=None, log=None):
 
         def res_arg(self, ns, types_ns, f_name, name, type_anno, f_is_local):
             t = obs_par.get((f_name, str(name)))
-            if not t or dec('arg'):
+            if not t or dec('arg') or (f_is_local and local_args_unknown):
                 return record('arg', (f_name, str(name)), None)
             return record('arg', (f_name, str(name)), set(t))
 
@@ -1155,6 +1188,21 @@ UNTYPED = 'c19-untyped-binding-keeps-stale-types'
 SIDE = 'c19-local-function-side-effects-not-applied'
 ALIAS = 'c19-closure-types-miss-calls-through-alias'
 STAR = 'c19-starred-unpacking-typed-by-position'
+NLJOIN = 'c19-nonlocal-entry-type-not-seeded'
+
+
+def rebinds_name(prog, g, name):
+    return g is not None and any(isinstance(n, ast.Name) and n.id == name and isinstance(n.ctx, ast.Store)
+                                 for n in g._members)
+
+
+def assigns_nonlocal(prog, g, name):
+    """local function g declares `name` nonlocal and assigns it somewhere in its own body"""
+    if g is None or id(g) not in prog.parent_fun or name in prog.locals_of[id(g)]:
+        return False
+    declared = any(isinstance(n, ast.Nonlocal) and name in n.names for n in g._members)
+    stored = any(isinstance(n, ast.Name) and n.id == name and isinstance(n.ctx, ast.Store) for n in g._members)
+    return declared and stored
 
 
 def in_starred_unpacking(prog, k):
@@ -1202,6 +1250,10 @@ def judge(prog, an, runs):
     STAR: the binding occurrence sits in an unpacking target with a starred element: _apply_unpacking gives
       the i-th target the type of element i of the right-hand side, also to the starred name (a list at
       run time) and to the names after it (which take elements counted from the end).
+    NLJOIN: a name declared `nonlocal` in a local function that also assigns it on some path is read there
+      while it still holds the value that came in through the closure: Analyzer.__init__ keeps names in
+      scope.bound (which lists nonlocal declarations) out of the entry map, so the path without assignment
+      contributes nothing to the join.
     ALIAS: a captured variable is read inside a local function (or listed in its closure types) whose
       function value escapes (h = g, argument, return value): closure types are collected only at
       statements that read the def name, a later call through the alias is not a call site.
@@ -1232,7 +1284,10 @@ def judge(prog, an, runs):
                     wf = prog.fun_of(sk)
                     wn = prog.nodes[sk]
                     wname = wn.id if isinstance(wn, ast.Name) else (wn.arg if isinstance(wn, ast.arg) else wn.name)
-                    if sk not in an.types and not isinstance(wn, ast.FunctionDef):
+                    if sk not in an.types and not isinstance(wn, ast.FunctionDef) and not (
+                            isinstance(wn, ast.arg) and not rebinds_name(prog, wf, wname)):
+                        # (an untyped PARAMETER has no entry at all on entry: it can only show a wrong set when
+                        # the function binds the name again somewhere)
                         cause = UNTYPED
                     elif sk in tainted:
                         cause = tainted[sk]
@@ -1240,6 +1295,10 @@ def judge(prog, an, runs):
                             and (wf is not prog.fun_of(k) or wact != ev[4]):
                         # bound through `nonlocal` in another function, or in an earlier activation of this one
                         cause = SIDE
+                    elif (wf is not prog.fun_of(k) or wact != ev[4]) and assigns_nonlocal(prog, prog.fun_of(k), n.id):
+                        # the value arrived through the closure, the reader's function also assigns the nonlocal on
+                        # some path: the entry map has no entry for a nonlocal, the join keeps the assigned types only
+                        cause = NLJOIN
                     elif wf is not None and prog.fun_of(k) is not wf and id(prog.fun_of(k)) in prog.parent_fun \
                             and escapes(prog, prog.fun_of(k)):
                         # a captured variable read inside a local function whose value escapes
@@ -1272,7 +1331,8 @@ def judge(prog, an, runs):
                     wk, sk, wact = writer
                     wf = prog.fun_of(sk)
                     wn = prog.nodes[sk]
-                    if sk not in an.types and not isinstance(wn, ast.FunctionDef):
+                    if sk not in an.types and not isinstance(wn, ast.FunctionDef) and not (
+                            isinstance(wn, ast.arg) and not rebinds_name(prog, wf, name)):
                         cause = UNTYPED
                     elif sk in tainted:
                         cause = tainted[sk]
